@@ -380,3 +380,14 @@ pub fn gen_layout(r: &mut Rng, max_entries: u64, max_content: u64, with_enc: boo
     }
     l
 }
+
+/// which source entry a raw copy resolves to: by_name returns the last entry carrying that name
+pub fn resolve_src(infos: &[Vec<SrcEntry>], si: usize, idx: usize, how: u8) -> Option<SrcEntry> {
+    let v = infos.get(si)?;
+    let e = v.get(idx)?;
+    if how == 1 {
+        v.iter().rev().find(|x| x.name == e.name).cloned()
+    } else {
+        Some(e.clone())
+    }
+}
